@@ -306,6 +306,24 @@ func (w *World) Exec(st Step) {
 			w.fail("detach-failed", fmt.Sprintf("step %d: %s detach: %v", w.stepNo, r.Name, err))
 			w.Dead = true
 		}
+	case "deactivate":
+		if !r.Activated {
+			ev.Skipped = true
+			return
+		}
+		w.preRequest()
+		err := r.Deactivate(w.ctx)
+		w.postRequest()
+		if err != nil {
+			ev.Err = err.Error()
+			w.fail("deactivate-failed", fmt.Sprintf("step %d: %s deactivate: %v", w.stepNo, r.Name, err))
+			w.Dead = true
+		}
+	case "hostile-presence":
+		// the replica starts sending presence although the document opted out
+		if r.Doc != nil {
+			r.Doc.SetDisablePresence(false)
+		}
 	case "undo", "redo":
 		if r.Doc == nil {
 			ev.Skipped = true
